@@ -93,9 +93,29 @@ func (c *context) AssignActions() bool {
 		}
 		elemType := c.getTermGoType(rule.Prods[1].Terms[0])
 		if elemType != nil && !hasDiscardMethod(elemType) {
-			c.Errs.GeneralErrorf(
-				"%v: type %v must have a method Discard() bool",
-				strings.TrimSuffix(rule.Name, "+!")+"*!", elemType)
+			termName := strings.TrimSuffix(rule.Name, "+!") + "*!"
+			// Report it at the production(s) where the term is written.
+			reported := false
+			for _, prod := range c.ParserGrammar.Prods {
+				if RuleGenerated(prod.Rule) != notGenerated {
+					continue
+				}
+				for _, term := range prod.Terms {
+					if termRule, ok := term.(*lr1.Rule); ok && termRule.Name == termName {
+						c.Errs.Errorf(
+							prod.Position,
+							"%v: type %v must have a method Discard() bool",
+							termName, elemType)
+						reported = true
+						break
+					}
+				}
+			}
+			if !reported {
+				c.Errs.GeneralErrorf(
+					"%v: type %v must have a method Discard() bool",
+					termName, elemType)
+			}
 		}
 	}
 	if c.Errs.HasError() {
